@@ -1,4 +1,4 @@
-import BumpVerif.Proofs.Frame
+import BumpVerif.Proofs.Ledger
 /-! # C03 — chunks are returned to the global allocator exactly once and never early
 
 The ledger is computed from the *event log alone* (what the global allocator saw): a successful
@@ -7,32 +7,6 @@ alignment.  The invariant says the ledger always equals the arena's chunk list (
 -/
 namespace Bump.C03
 open Bump Gen
-
-abbrev Blk := Nat × Nat × Nat
-
-def applyEv (held : List Blk) : Ev → List Blk
-  | .malloc sz al (some a) => (a, sz, al) :: held
-  | .malloc _ _ none => held
-  | .free a sz al => held.erase (a, sz, al)
-
-def ledger (init : List Blk) (evs : List Ev) : List Blk := evs.foldl applyEv init
-
-def key (c : Chunk) : Blk := (c.data, c.size, c.align)
-
-/-- the allocator's view agrees with the arena's: it holds exactly the arena's chunks -/
-def Ledger (s : St) : Prop := ledger [] s.evs = s.a.chunks.map key
-
-theorem ledger_append (init : List Blk) (a b : List Ev) : ledger init (a ++ b) = ledger (ledger init a) b := by
-  simp [ledger, List.foldl_append]
-
-theorem ledger_refused (init : List Blk) (refs : List Ev) (h : AllRefused refs) : ledger init refs = init := by
-  induction refs generalizing init with
-  | nil => rfl
-  | cons e es ih =>
-    obtain ⟨sz, al, he⟩ := h e List.mem_cons_self
-    subst he
-    simp only [ledger, List.foldl_cons, applyEv]
-    exact ih init (fun x hx => h x (List.mem_cons_of_mem _ hx))
 
 /-- Every allocation flavour keeps the ledger invariant; it never frees anything, and a failed
 or refused request leaves the ledger unchanged. -/
@@ -61,63 +35,29 @@ theorem alloc_ledger {E sz al} (f : Bool) (s : St) (hE : EnvOK E) (h : ArenaWF E
   | bad w => exact absurd ho (sp.nobad w)
   | envBad => exact absurd ho hne
 
-theorem erase_all_tail (k : Blk) (ks : List Blk) (hk : k ∉ ks) :
-    ledger (k :: ks) (ks.map fun b => Ev.free b.1 b.2.1 b.2.2) = [k] := by
-  induction ks with
-  | nil => rfl
-  | cons x xs ih =>
-    have hx : k ≠ x := fun h => hk (h ▸ List.mem_cons_self)
-    have hk' : k ∉ xs := fun h => hk (List.mem_cons_of_mem _ h)
-    simp only [List.map_cons, ledger, List.foldl_cons, applyEv]
-    have : (k :: x :: xs).erase (x.1, x.2.1, x.2.2) = k :: xs := by
-      have hne : ((k : Blk) == (x.1, x.2.1, x.2.2)) = false := by
-        simp only [beq_eq_false_iff_ne, ne_eq]; exact hx
-      rw [List.erase_cons_tail (by simpa using hne)]
-      simp
-    rw [this]
-    exact ih hk'
-
-theorem erase_all (ks : List Blk) : ledger ks (ks.map fun b => Ev.free b.1 b.2.1 b.2.2) = [] := by
-  induction ks with
-  | nil => rfl
-  | cons x xs ih =>
-    simp only [List.map_cons, ledger, List.foldl_cons, applyEv]
-    have : (x :: xs).erase (x.1, x.2.1, x.2.2) = xs := by simp
-    rw [this]; exact ih
-
-theorem freeEv_map (cs : List Chunk) :
-    cs.map freeEv = (cs.map key).map fun b => Ev.free b.1 b.2.1 b.2.2 := by
-  simp [freeEv, key, List.map_map, Function.comp_def]
-
 /-- `reset` gives back exactly the chunks other than the newest one, each once, each with the
 layout it was requested with; afterwards the allocator still holds exactly the kept chunk. -/
-theorem reset_ledger {E} (s : St) (h : ArenaWF E s.a) (hl : Ledger s) : Ledger (reset s).1 := by
-  obtain ⟨_, _, _, _, _, _, h7⟩ := reset_spec s h
-  unfold Ledger at *
-  rcases h7 with ⟨_, he⟩ | ⟨c, rest, hc, hch, hev⟩
-  · rw [he]; exact hl
-  · rw [hev, ledger_append, hl, hc, hch, freeEv_map]
-    simp only [List.map_cons, List.map_nil]
-    have hk : key c ∉ rest.map key := by
-      intro hmem
-      obtain ⟨d, hd, hkd⟩ := List.mem_map.mp hmem
-      have hdis := h.disj; rw [hc] at hdis
-      have hcd := (List.pairwise_cons.mp hdis).1 d hd
-      have hw := h.chunks c (by rw [hc]; exact List.mem_cons_self)
-      have hs := hw.size_ge
-      simp only [key, Prod.mk.injEq] at hkd
-      unfold Disj at hcd
-      have := FS
-      omega
-    exact erase_all_tail (key c) (rest.map key) hk
+theorem reset_ledger {E} (s : St) (h : ArenaWF E s.a) (hl : Ledger s) : Ledger (reset s).1 := Bump.reset_ledger s h hl
 
 /-- dropping the arena gives back every chunk exactly once; afterwards it holds no memory -/
-theorem drop_ledger (s : St) (hl : Ledger s) : ledger [] (dropArena s).evs = [] ∧ (dropArena s).a.chunks = [] := by
-  unfold Ledger at hl
-  unfold dropArena
-  simp only
-  rw [ledger_append, hl, freeEv_map]
-  exact ⟨erase_all _, trivial⟩
+theorem drop_ledger (s : St) (hl : Ledger s) : ledger [] (dropArena s).evs = [] ∧ (dropArena s).a.chunks = [] :=
+  Bump.drop_ledger s hl
+
+/-- **All histories.** After any admissible history — constructors with capacity, growth over many
+chunks, `reset` at any point, failed allocations, allocator refusals at any point — the allocator
+ledger (computed from the event log alone) equals the arena's chunk list; so every block obtained
+was either still held or freed exactly once with its own layout, and only by `reset`. -/
+theorem history_ledger {E} (hE : EnvOK E) : ∀ (ops : List Op) (y : Sys), LiveInv E y → Ledger y.st → RunOK E ops y →
+    Ledger (sysRun E ops y).1.st := by
+  intro ops
+  induction ops with
+  | nil => intro y _ hl _; exact hl
+  | cons op ops ih =>
+    intro y inv hl hrun
+    obtain ⟨hv, hne, hrest⟩ := hrun
+    have inv' := (sysStep_live hE y op inv hv).2 hne
+    have hl' := sysStep_ledger hE y op inv hv hl hne
+    exact ih (sysStep E op y).1 inv' hl' hrest
 
 /-- the static empty chunk is never given to the allocator: every `free` names a held chunk,
 and held chunks are disjoint from the static -/
@@ -146,5 +86,6 @@ end Bump.C03
 #print axioms Bump.C03.alloc_ledger
 #print axioms Bump.C03.reset_ledger
 #print axioms Bump.C03.drop_ledger
+#print axioms Bump.C03.history_ledger
 #print axioms Bump.C03.never_frees_static
 #print axioms Bump.C03.dealloc_silent
